@@ -240,3 +240,54 @@ def check_c06(ctx):
 
 
 CHECKS['C06'] = check_c06
+
+
+# ------------------------------------------------------------------ C19
+def check_c19(ctx):
+    from concurrent.futures import ThreadPoolExecutor
+    vlib.build_worker(ctx)
+    vocab = vocabulary(ctx)
+    rep = vlib.Report(ctx)
+    maxchain = 8 if ctx.tier == 'thorough' else 6
+    cases = gen_cases(ctx, ['valid'], maxchain, [])
+    obsfiles = vlib.run_worker(ctx, 'codec', cases, ['-vocab', vocab, '-names', 'plain', '-expand'], prefix='valid')
+
+    def validate(of):
+        out = of + '.val'
+        rc, o = vlib.run(['python3-vt', '-W', 'ignore', os.path.join(vlib.VERIF, 'tools', 'validate_swagger.py'), vlib.REPO, of, out], check=False, timeout=3000)
+        if rc != 0:
+            raise Broken('validator failed: ' + o[-2000:])
+        # merge the instrument's verdicts into the observation handed to TLC
+        vals = [json.loads(l) for l in open(out)]
+        merged = of + '.m'
+        with open(merged, 'w') as w:
+            for l, v in zip(open(of), vals):
+                o = json.loads(l)
+                f = lambda x: 't' if x is True else ('f' if x is False else 'n')
+                o['validin'], o['validrt'], o['validexp'], o['why19'] = f(v['validin']), f(v['validrt']), f(v['validexp']), v['why']
+                for k in ('srcraw', 'n1raw', 'expanded'):
+                    o.pop(k, None)
+                w.write(json.dumps(o) + '\n')
+        return merged
+    with ThreadPoolExecutor(max_workers=vlib.NCPU) as ex:
+        merged = list(ex.map(validate, obsfiles))
+    pairs = vlib.run_oracle(ctx, 'CodecOracle', merged)
+    collect(ctx, rep, pairs, ['c19rt', 'c19exp'], lambda o, v: 'validator: %s experr=%s' % (o.get('why19', '')[:160], o.get('experr', '')[:80]),
+            lambda o, v: o.get('validin') == 't')
+    rep.counts['inputs_rejected_by_validator'] = sum(1 for o, v in pairs if o.get('validin') != 't')
+    return rep.finish(
+        'model_checking',
+        'CodecCases.tla family "valid": whole Swagger documents grown from the root along the vocabulary spine (info, contact, '
+        'license, tags, paths, path items, operations, parameters of all five locations, responses, headers, items, schemas with '
+        'properties / items / allOf / additionalProperties / xml / externalDocs, security definitions of all six flavours) of <= %d '
+        'edges, each with every single member of the innermost object at every normal-form value class (incl. required members at '
+        'their empty value, $ref members with resolvable targets, an x- extension). Instrument: python jsonschema Draft4Validator '
+        'with the schemas shipped in /repo; only inputs it accepts are used. For each, the re-encoding after a decode and the result '
+        'of a successful ExpandSpec must validate; the verdicts are combined by CodecOracle.tla. distinct_nontrivial = distinct '
+        'validator-accepted source documents.' % maxchain,
+        ASSUME + ['validity is observed by python jsonschema 4.x (Draft4Validator) - an instrument, like the race detector',
+                  'expansion inputs are well-founded by construction (every $ref targets a concrete object)'],
+        exhaustive=True)
+
+
+CHECKS['C19'] = check_c19
